@@ -85,6 +85,16 @@ impl RefModel {
         }
     }
 
+    /// a re-initialisation: frame memory survives, window / orientation / sleep state are new
+    pub fn reconfigure(&mut self, cfg: &Config) {
+        self.w = cfg.w as u32;
+        self.h = cfg.h as u32;
+        self.ox = cfg.ox as u32;
+        self.oy = cfg.oy as u32;
+        self.orient = cfg.orient;
+        self.sleeping = false;
+    }
+
     pub fn logical_size(&self) -> (u32, u32) {
         if self.orient.rot % 2 == 0 {
             (self.w, self.h)
@@ -220,6 +230,8 @@ impl RefModel {
             Op::ScrollRegion { .. } | Op::ScrollOffset { .. } | Op::Tearing { .. } => {}
             // judged by its own picture oracle (C19), not by picture equality
             Op::TestImage => {}
+            // handled by the executor through `reconfigure`
+            Op::Reinit { .. } => {}
         }
     }
 
